@@ -16,13 +16,14 @@ import (
 // the current endpoint per address, the reachability matrix and the seeded
 // per-message fault plan.
 type Net struct {
-	w    *World
-	mu   sync.Mutex
-	eps  map[raft.ServerAddress]*Trans
-	cut  map[[2]string]bool          // directed: from -> to unreachable
-	slow map[[2]string]time.Duration // directed: requests from -> to are delivered this much later
-	rng  *rand.Rand
-	ids  uint64
+	w      *World
+	mu     sync.Mutex
+	eps    map[raft.ServerAddress]*Trans
+	cut    map[[2]string]bool          // directed: from -> to unreachable
+	slow   map[[2]string]time.Duration // directed: requests from -> to are delivered this much later
+	reqCut map[[2]string]bool          // directed: requests from -> to are lost, responses to requests of `to` still travel
+	rng    *rand.Rand
+	ids    uint64
 
 	DropP, RespDropP, DelayP, DupP float64
 	MaxDelay                       time.Duration
@@ -76,6 +77,7 @@ func (n *Net) Heal() {
 	n.mu.Lock()
 	n.cut = map[[2]string]bool{}
 	n.slow = nil
+	n.reqCut = nil
 	for _, l := range n.link {
 		l.quar = false
 	}
@@ -113,8 +115,32 @@ func (n *Net) isCut(from, to string) bool {
 	return n.cut[[2]string{from, to}]
 }
 
+// isReqCut: may a request travel from -> to?
+func (n *Net) isReqCut(from, to string) bool {
+	n.mu.Lock()
+	defer n.mu.Unlock()
+	return n.cut[[2]string{from, to}] || n.reqCut[[2]string{from, to}]
+}
+
+// SetReqCut loses the requests sent from -> to while responses to requests travelling the other
+// way still arrive (a link that has come back in one direction only). Heal removes it.
+func (n *Net) SetReqCut(from, to string, v bool) {
+	n.mu.Lock()
+	if n.reqCut == nil {
+		n.reqCut = map[[2]string]bool{}
+	}
+	if v {
+		n.reqCut[[2]string{from, to}] = true
+	} else {
+		delete(n.reqCut, [2]string{from, to})
+	}
+	n.mu.Unlock()
+	n.w.Log(Ev{K: "x.cut", S: from, X: to, A: b2u(v), Y: "requests-only"})
+}
+
 type fate struct {
 	dropReq, dropResp, dup, quarantined bool
+	cutBody                             bool
 	delayReq, delayResp                 time.Duration
 	failLatency                         time.Duration
 }
@@ -172,6 +198,9 @@ func (n *Net) fate(from, to, kind string, pos uint64) fate {
 	}
 	if n.rng.Float64() < n.DupP {
 		f.dup = true
+	}
+	if kind == "is" && n.DropP > 0 && n.rng.Float64() < 0.3 {
+		f.cutBody = true // lossy network: a snapshot stream may end early
 	}
 	f.delayReq += n.slow[k]
 	return f
@@ -413,7 +442,13 @@ func (t *Trans) call(target raft.ServerAddress, kind string, req interface{}, rd
 		return nil, errNet
 	}
 	f := t.net.fate(string(t.addr), string(target), kind, ev.C)
-	if f.quarantined || f.dropReq || t.net.isCut(string(t.addr), string(target)) {
+	if kind == "is" && len(data) > 1 && f.cutBody {
+		// the stream of a snapshot ends early (the sender or the connection dies mid-transfer):
+		// the receiver gets fewer bytes than the request announces
+		data = data[:len(data)/2]
+		t.net.w.Log(Ev{K: "r.cutbody", A: id, B: uint64(len(data))})
+	}
+	if f.quarantined || f.dropReq || t.net.isReqCut(string(t.addr), string(target)) {
 		t.net.w.Log(Ev{K: "r.drop", A: id, X: "req"})
 		time.Sleep(f.failLatency)
 		return nil, errNet
@@ -423,7 +458,7 @@ func (t *Trans) call(target raft.ServerAddress, kind string, req interface{}, rd
 	}
 	t.net.mu.Lock()
 	peer := t.net.eps[target]
-	cut := t.net.cut[[2]string{string(t.addr), string(target)}]
+	cut := t.net.cut[[2]string{string(t.addr), string(target)}] || t.net.reqCut[[2]string{string(t.addr), string(target)}]
 	t.net.mu.Unlock()
 	if peer == nil || cut || !peer.live() {
 		t.net.w.Log(Ev{K: "r.drop", A: id, X: "req-late"})
@@ -549,7 +584,7 @@ func (t *Trans) AppendEntriesPipeline(id raft.ServerID, target raft.ServerAddres
 	if !t.Pipeline {
 		return nil, raft.ErrPipelineReplicationNotSupported
 	}
-	if !t.live() || t.net.isCut(string(t.addr), string(target)) {
+	if !t.live() || t.net.isReqCut(string(t.addr), string(target)) {
 		return nil, errNet
 	}
 	p := &pipe{t: t, target: target, inprog: make(chan *pfut, t.PipeMax), doneCh: make(chan raft.AppendFuture, t.PipeMax), shut: make(chan struct{})}
